@@ -216,7 +216,11 @@ where
         // us preserve address relocations.
         let mut from_row = read::LineRow::new(from_program.header());
         let mut instructions = from_program.header().instructions();
-        let mut current_sequence_base_address = None;
+        // Base address of the output sequence that is currently open, if any,
+        // and the offset of the last row generated in it.
+        let mut current_sequence_base_address: Option<u64> = None;
+        let mut last_row_offset = 0;
+        let mut in_from_sequence = false;
         let mut from_base_address = 0;
 
         while let Some(instruction) = instructions.next_instruction(from_program.header())? {
@@ -234,77 +238,103 @@ where
                 }
                 _ => {
                     if from_row.execute(instruction, &mut from_program) {
-                        if !program.in_sequence() {
-                            // begin new sequence if exists
-                            current_sequence_base_address = (self.convert_address)(
+                        // New addresses in the transformed wasm binary are not a
+                        // fixed distance away from the original ones, and
+                        // functions may have been reordered or removed, so every
+                        // row is converted on its own. An output sequence is
+                        // (re)started whenever there is none or the converted
+                        // address would go backwards, because addresses within
+                        // one sequence must not decrease.
+                        if !in_from_sequence {
+                            // First row of a sequence of the original program:
+                            // start the new sequence at the converted base
+                            // address, if that address still exists.
+                            in_from_sequence = true;
+                            if let Some(write::Address::Constant(base_address)) = (self
+                                .convert_address)(
                                 from_base_address,
                                 AddressSearchPreference::ExclusiveFunctionEnd,
-                            );
-
-                            if current_sequence_base_address.is_some() {
-                                program.begin_sequence(current_sequence_base_address);
+                            ) {
+                                program.begin_sequence(Some(write::Address::Constant(base_address)));
+                                current_sequence_base_address = Some(base_address);
+                                last_row_offset = 0;
                             }
                         }
 
-                        if let Some(write::Address::Constant(base_address)) =
-                            current_sequence_base_address
-                        {
-                            // New offset from sequence base address in the transformed wasm binary
-                            // can be different from one in the original wasm binary.
-                            // Therefore, reculculating the new offset here.
-                            let from_row_address = from_row.address() + from_base_address;
-                            let row_address = (self.convert_address)(
-                                from_row_address,
-                                AddressSearchPreference::InclusiveFunctionEnd,
-                            );
+                        let from_row_address = from_row.address() + from_base_address;
+                        let row_address = match (self.convert_address)(
+                            from_row_address,
+                            AddressSearchPreference::InclusiveFunctionEnd,
+                        ) {
+                            Some(write::Address::Constant(address)) => Some(address),
+                            _ => None,
+                        };
 
-                            // either sequence_base_address or row_address is not resolved, ignore this entry.
-                            if let Some(write::Address::Constant(address)) = row_address {
-                                let address_offset = address.saturating_sub(base_address);
-
-                                if from_row.end_sequence() {
-                                    program.end_sequence(address_offset);
-                                    from_base_address = from_row_address;
-                                } else {
-                                    program.row().address_offset = address_offset;
-                                    program.row().op_index = from_row.op_index();
-                                    program.row().file = {
-                                        let file = from_row.file_index();
-                                        if file > files.len() as u64 {
-                                            return Err(write::ConvertError::InvalidFileIndex);
-                                        }
-                                        if file == 0 {
-                                            // Only DWARF 5 has a file with index 0.
-                                            match file_zero {
-                                                Some(id) if program.version() >= 5 => id,
-                                                _ => {
-                                                    return Err(
-                                                        write::ConvertError::InvalidFileIndex,
-                                                    )
-                                                }
-                                            }
-                                        } else {
-                                            files[(file - 1) as usize]
-                                        }
-                                    };
-                                    program.row().line = match from_row.line() {
-                                        Some(line) => line.get(),
-                                        None => 0,
-                                    };
-                                    program.row().column = match from_row.column() {
-                                        read::ColumnType::LeftEdge => 0,
-                                        read::ColumnType::Column(val) => val.get(),
-                                    };
-                                    program.row().discriminator = from_row.discriminator();
-                                    program.row().is_statement = from_row.is_stmt();
-                                    program.row().basic_block = from_row.basic_block();
-                                    program.row().prologue_end = from_row.prologue_end();
-                                    program.row().epilogue_begin = from_row.epilogue_begin();
-                                    program.row().isa = from_row.isa();
-                                    program.generate_row();
+                        if from_row.end_sequence() {
+                            if let Some(base_address) = current_sequence_base_address {
+                                let end_offset = match row_address {
+                                    Some(address) if address >= base_address + last_row_offset => {
+                                        address - base_address
+                                    }
+                                    _ => last_row_offset + 1,
+                                };
+                                program.end_sequence(end_offset);
+                                current_sequence_base_address = None;
+                            }
+                            from_base_address = from_row_address;
+                            in_from_sequence = false;
+                        } else if let Some(address) = row_address {
+                            if let Some(base_address) = current_sequence_base_address {
+                                if address < base_address + last_row_offset {
+                                    program.end_sequence(last_row_offset + 1);
+                                    current_sequence_base_address = None;
                                 }
                             }
+                            let base_address = match current_sequence_base_address {
+                                Some(base_address) => base_address,
+                                None => {
+                                    program.begin_sequence(Some(write::Address::Constant(address)));
+                                    current_sequence_base_address = Some(address);
+                                    address
+                                }
+                            };
+                            let address_offset = address - base_address;
+                            last_row_offset = address_offset;
+
+                            program.row().address_offset = address_offset;
+                            program.row().op_index = from_row.op_index();
+                            program.row().file = {
+                                let file = from_row.file_index();
+                                if file > files.len() as u64 {
+                                    return Err(write::ConvertError::InvalidFileIndex);
+                                }
+                                if file == 0 {
+                                    // Only DWARF 5 has a file with index 0.
+                                    match file_zero {
+                                        Some(id) if program.version() >= 5 => id,
+                                        _ => return Err(write::ConvertError::InvalidFileIndex),
+                                    }
+                                } else {
+                                    files[(file - 1) as usize]
+                                }
+                            };
+                            program.row().line = match from_row.line() {
+                                Some(line) => line.get(),
+                                None => 0,
+                            };
+                            program.row().column = match from_row.column() {
+                                read::ColumnType::LeftEdge => 0,
+                                read::ColumnType::Column(val) => val.get(),
+                            };
+                            program.row().discriminator = from_row.discriminator();
+                            program.row().is_statement = from_row.is_stmt();
+                            program.row().basic_block = from_row.basic_block();
+                            program.row().prologue_end = from_row.prologue_end();
+                            program.row().epilogue_begin = from_row.epilogue_begin();
+                            program.row().isa = from_row.isa();
+                            program.generate_row();
                         }
+                        // a row that cannot be resolved (removed code) is dropped
 
                         from_row.reset(from_program.header());
                     }
